@@ -55,6 +55,17 @@ CLAIMS["C34"] = (
     "across proxies is the meta-argument 'disjoint grants' and is not mechanised.",
     "DESIGN.md section 4, C34")
 
+CLAIMS["C25"] = (
+    "balancer.next advances the 32-bit counter by one and returns the queue entry at counter mod len(Q) (atomic add modelled as a cell "
+    "operation); lemma rrStep: consecutive calls visit consecutive queue positions mod len(Q) while the counter does not wrap (so any len(Q) "
+    "consecutive selections visit every queue position once); the wrap case is a recorded known finding (lemma rrStepAcrossWrap fails). "
+    "getNodeFromBalancer returns only nodes that are up and are candidates of the given balancer; GetSlaveConn consults only the local "
+    "balancer under forced-local reads, local then remote under preferred-local, the global one otherwise (call-site obligations).",
+    "Trusted: sync/atomic as sequential cell operations, DBInfo mutex; NOT under contract: newBalancer's queue construction (gcd, weights, "
+    "rand.Shuffle) and getIndicesAndWeights' datacenter filter, so 'each replica exactly its normalized weight times' is decided only up to "
+    "'the queue is what newBalancer built'; the pigeonhole step from rrStep to the window statement is a meta-argument.",
+    "DESIGN.md section 4, C25")
+
 NA = {
 }
 
